@@ -285,10 +285,7 @@ def r2(ctx, cf):
     ok = decl.get("maxDistanceSquared") == "(maxDistance*maxDistance)" and decl.get("dSquared") == "dot3(delta,delta)" and len(deltas) == 1 and decl.get("index") == "voxelBins[item].second" and \
         decl.get("atomPos", "").startswith("fvec4(atomLocations[(3*index)]") and decl.get("centerAtomPos") == "(&atomLocations[(3*atomIndex)])"
     ctx.decide(ok, "C10-R2", C.line(fn), NL, "Voxels::getNeighbors", "dSquared = |x[index] - x[atomIndex]|^2 (after the wrap) against cutoff^2", "", "distance quantities are %s" % decl)
-    wr = [_n(C.text(n)) for n in C.walk(fn) if n["kind"] in ("CXXOperatorCallExpr", "CompoundAssignOperator") and _n(C.text(n)).startswith("(delta-=")]
-    want = ["(delta-=(round((delta*invBoxSize))*boxSize))", "(delta-=(periodicBoxVec4[2]*floorf(((delta[2]*this.recipBoxSize[2])+0.5))))", "(delta-=(periodicBoxVec4[1]*floorf(((delta[1]*this.recipBoxSize[1])+0.5))))",
-            "(delta-=(periodicBoxVec4[0]*floorf(((delta[0]*this.recipBoxSize[0])+0.5))))"]
-    ctx.decide(wr == want, "C10-R2", C.line(fn), NL, "Voxels::getNeighbors", "wrap on the difference (rectangular / c,b,a)", "", "wrap statements are %s" % wr)
+    _candidate_wrap_by_value(ctx, cf, fn)
     top = cf.function(NL, "_compute_neighborlist")
     ctx.analysed_functions.add(NL + ":_compute_neighborlist")
     comp = [n for n in C.walk(top) if n["kind"] == "CXXMemberCallExpr" and C.callee_name(n) == "push_back"]
@@ -623,3 +620,152 @@ def r5_y_range_of_a_z_voxel(ctx, cf):
     else:
         ctx.decide(len(full) == 2, "C10-R5", C.line(shifted[0]), NL, "Voxels::getNeighbors", "triclinic cells: the whole y row is visited (the corner test prunes); the single-offset range is used for rectangular cells only", "",
                    "under `triclinic` the y range is not 0 .. ny-1 (%d matching assignments)" % len(full))
+
+
+def _candidate_wrap_by_value(ctx, cf, fn):
+    """The displacement of a candidate from the centre atom, between its definition and the squared distance that decides the pair, by value
+    numbering (a helper the wrap may have been moved into is evaluated in place): for a triclinic cell the displacement d is reduced by
+    d -= c floor(d_z / c_z + 1/2), then b, then a (the reduced box vectors, reciprocal diagonal); for a rectangular cell by
+    d -= round(d / L) L; and it is left alone when no image can be closer.  Whatever the statements look like."""
+    from ..symval import SymExec, State, Ptr, Vec, Unsupported, elementary_facts
+    q = "Voxels::getNeighbors"
+    parent = {}
+    for n in C.walk(fn):
+        for k in C.kids(n):
+            if "id" in k:
+                parent[k["id"]] = n
+    # D = dot3(X, X): the squared distance; X: the displacement
+    cand = []
+    for v in C.walk(fn):
+        if v["kind"] == "VarDecl" and C.kids(v):
+            init = C.strip(C.kids(v)[-1])
+            if init.get("kind") == "CallExpr" and C.callee_name(init) == "dot3":
+                a_ = [C.ref_id(x) for x in C.call_args(init)]
+                if len(a_) == 2 and a_[0] is not None and a_[0] == a_[1]:
+                    cand.append((v, a_[0]))
+    if len(cand) != 1:
+        ctx.undecided("C10-R2", C.line(fn), NL, q, "wrap of the candidate displacement", "%d squared-distance declarations `dot3(d, d)` found" % len(cand))
+        return
+    dvar, xid = cand[0]
+    xdecl = next((v for v in C.walk(fn) if v["kind"] == "VarDecl" and v.get("id") == xid), None)
+    blk = dvar
+    while blk is not None and blk.get("kind") != "CompoundStmt":
+        blk = parent.get(blk["id"])
+    if xdecl is None or blk is None:
+        ctx.undecided("C10-R2", C.line(fn), NL, q, "wrap of the candidate displacement", "declaration of the displacement not found")
+        return
+    stmts = C.kids(blk)
+    i0 = next((i for i, s_ in enumerate(stmts) if any(x is xdecl for x in C.walk(s_))), None)
+    i1 = next((i for i, s_ in enumerate(stmts) if any(x is dvar for x in C.walk(s_))), None)
+    if i0 is None or i1 is None or i0 > i1:
+        ctx.undecided("C10-R2", C.line(fn), NL, q, "wrap of the candidate displacement", "the displacement and the squared distance are not declared in one block")
+        return
+    seg = stmts[i0:i1 + 1]
+    xname = xdecl.get("name")
+    vec_arrays = [v.get("name") for v in C.walk(fn) if v["kind"] == "VarDecl" and "fvec4[3]" in C.qtype(v).replace(" ", "")]
+    var = lambda n_: Rat(Poly.var(n_))     # noqa: E731
+    results = {}
+    flag_syms = {}
+    for tric in (1, 0):
+        def model(name, args, n, st_, ex_):
+            if name == "abs" and len(args) == 1 and isinstance(args[0], Vec):
+                return Vec(ex_.opaque_call("fabs", [x]) for x in args[0])
+            return None
+        ex = SymExec(cf, NL, call_model=model, max_unroll=8)
+        st = State()
+        st.env["this.triclinic"] = Rat(Poly.const(tric))
+        for m_ in ("recipBoxSize", "periodicBoxSize"):
+            st.env["this." + m_] = Ptr("this." + m_, 0)
+        for arr in vec_arrays:
+            st.env[arr] = Ptr(arr, 0)
+            for k in range(3):
+                st.env[(arr, k)] = Vec([var("B%d%d" % (k, c)) for c in range(3)] + [Rat(Poly.const(0))])
+        # the two fvec4 built from the (reciprocal) box diagonal, if the block uses them: decided by how the function defines them
+        for v in C.walk(fn):
+            if v["kind"] == "VarDecl" and "fvec4" in C.qtype(v) and C.kids(v) and v is not xdecl and v.get("name") not in vec_arrays:
+                txt = _n(C.text(C.kids(v)[-1]))
+                if "recipBoxSize[0]" in txt and "recipBoxSize[1]" in txt:
+                    st.env[v.get("name")] = Vec([var("this.recipBoxSize[%d]" % c) for c in range(3)] + [Rat(Poly.const(0))])
+                elif "periodicBoxSize[0]" in txt and "periodicBoxSize[1]" in txt:
+                    st.env[v.get("name")] = Vec([var("this.periodicBoxSize[%d]" % c) for c in range(3)] + [Rat(Poly.const(0))])
+        # boolean locals the block reads but does not declare: their own initialisers, evaluated first (innermost dependencies first)
+        inside = {v.get("id") for s_ in seg for v in C.walk(s_) if v["kind"] == "VarDecl"}
+        decls = {v.get("id"): v for v in C.walk(fn) if v["kind"] == "VarDecl"}
+
+        def prime(node, depth=0):
+            for r_ in C.walk(node):
+                if r_["kind"] == "DeclRefExpr":
+                    rid = r_["referencedDecl"].get("id")
+                    v = decls.get(rid)
+                    if v is None or rid in inside or v.get("name") in st.env or depth > 3:
+                        continue
+                    if C.qtype(v).replace("const ", "").strip() in ("bool", "int") and C.kids(v):
+                        prime(C.kids(v)[-1], depth + 1)
+                        try:
+                            st.env[v.get("name")] = ex.expr(C.kids(v)[-1], st)
+                        except Unsupported:
+                            if C.qtype(v).replace("const ", "").strip() == "bool":
+                                # an unknown truth value: a symbol the evaluator treats as a condition (so that `b && true` is `b`)
+                                b_ = Rat(Poly.var(v.get("name")))
+                                ex.atoms[v.get("name")] = ("cmp", "!=", b_, Rat(Poly.const(0)))
+                                st.env[v.get("name")] = b_
+        for s_ in seg:
+            prime(s_)
+        try:
+            outs = ex.run(seg, st)
+        except Unsupported as e:
+            ctx.undecided("C10-R2", C.line(xdecl), NL, q, "wrap of the candidate displacement", "not evaluable: %s" % e)
+            return
+        res = []
+        for o in outs:
+            d = o.env.get(xname)
+            if not isinstance(d, Vec):
+                continue
+            facts = []
+            for (cv, pol), (txt, _p) in zip(o.cexprs, o.cvals):
+                facts += elementary_facts(ex, cv if cv is not None else txt, pol)
+            res.append((d, facts, ex))
+        results[tric] = res
+    # the displacement as first defined: evaluate the declaration alone
+    ex0 = SymExec(cf, NL)
+    s0 = State()
+    try:
+        ex0.run([stmts[i0]], s0)
+    except Unsupported as e:
+        ctx.undecided("C10-R2", C.line(xdecl), NL, q, "wrap of the candidate displacement", "not evaluable: %s" % e)
+        return
+    d0 = s0.env.get(xname)
+    if not isinstance(d0, Vec):
+        ctx.undecided("C10-R2", C.line(xdecl), NL, q, "wrap of the candidate displacement", "the displacement is not a vector value")
+        return
+
+    def same(u, v, ex_=None):
+        # equal, or equal after the component-wise |.| some versions apply before squaring
+        if all(a_ == b_ for a_, b_ in zip(list(u)[:3], list(v)[:3])):
+            return True
+        return ex_ is not None and all(a_ == ex_.opaque_call("fabs", [b_]) for a_, b_ in zip(list(u)[:3], list(v)[:3]))
+    for tric, what in ((1, "triclinic cell: d -= c floor(d_z/c_z + 1/2), then b, then a"), (0, "rectangular cell: d -= round(d / L) L")):
+        res = results[tric]
+        ex = res[0][2] if res else None
+        if ex is None:
+            ctx.undecided("C10-R2", C.line(xdecl), NL, q, what, "no path leaves a displacement")
+            continue
+        d = list(d0)[:3]
+        if tric:
+            for k in (2, 1, 0):
+                f = ex.opaque_call("floor", [d[k] * var("this.recipBoxSize[%d]" % k) + Rat(Poly.const(1)) / 2])
+                d = [d[c] - var("B%d%d" % (k, c)) * f for c in range(3)]
+        else:
+            d = [d[c] - ex.opaque_call("round", [d[c] * var("this.recipBoxSize[%d]" % c)]) * var("this.periodicBoxSize[%d]" % c) for c in range(3)]
+        wrapped = [r_ for r_ in res if same(r_[0], d, ex)]
+        plain = [r_ for r_ in res if same(r_[0], list(d0)[:3], ex)]
+        other = [r_ for r_ in res if r_ not in wrapped and r_ not in plain]
+        ok = bool(wrapped) and bool(plain) and not other
+        why = ""
+        if other:
+            why = "a path leaves the displacement as %s" % repr(list(other[0][0])[0])[:200]
+        elif not wrapped:
+            why = "no path applies the reduction to the displacement"
+        elif not plain:
+            why = "every path wraps (the test that no image can be closer has gone)"
+        ctx.decide(ok, "C10-R2", C.line(xdecl), NL, q, "wrap of the candidate displacement, " + what, "%d wrapped / %d plain paths" % (len(wrapped), len(plain)), why)
